@@ -185,6 +185,7 @@ class Folder:
         self.env: Dict[str, Any] = {}
         self.defs: Dict[str, ast.AST] = {}
         self.failed: Dict[str, str] = {}
+        self._locals: Dict[str, Any] = {}
         self._outer: Optional[Folder] = None
         if cls is not None:
             self._outer = repo.folder(module, None)
@@ -246,6 +247,10 @@ class Folder:
                         self.env[f.value.id] = recv + list(args[0])
         except Unfoldable as e:
             tgt = None
+            if isinstance(st, ast.Expr) and isinstance(st.value, ast.Call):
+                f = st.value.func
+                if isinstance(f, ast.Attribute) and isinstance(f.value, ast.Name):
+                    tgt = f.value.id  # a definition-time mutation we could not follow
             if isinstance(st, ast.Assign) and isinstance(st.targets[0], ast.Name):
                 tgt = st.targets[0].id
             elif isinstance(st, (ast.AnnAssign, ast.AugAssign)) and isinstance(
@@ -291,7 +296,29 @@ class Folder:
         if isinstance(node, ast.Constant):
             return node.value
         if isinstance(node, ast.Name):
+            if node.id in self._locals:
+                return self._locals[node.id]
             return self.lookup(node.id)
+        if isinstance(node, (ast.GeneratorExp, ast.ListComp, ast.SetComp)):
+            if len(node.generators) != 1 or not isinstance(node.generators[0].target, ast.Name):
+                raise Unfoldable(norm(node))
+            g = node.generators[0]
+            out = []
+            var = g.target.id
+            saved = self._locals.get(var, _MISSING)
+            try:
+                for item in self.ev(g.iter):
+                    self._locals[var] = item
+                    if all(self.ev(c) for c in g.ifs):
+                        out.append(self.ev(node.elt))
+            finally:
+                if saved is _MISSING:
+                    self._locals.pop(var, None)
+                else:
+                    self._locals[var] = saved
+            if isinstance(node, ast.SetComp):
+                return set(out)
+            return out
         if isinstance(node, ast.JoinedStr):
             parts = []
             for v in node.values:
@@ -378,6 +405,9 @@ class Folder:
         if isinstance(node, ast.Constant) and isinstance(node.value, int):
             return node.value
         raise Unfoldable(norm(node))
+
+
+_MISSING = object()
 
 
 class ClassRef:
